@@ -443,6 +443,16 @@ func c13Items(env *core.Env) []c13Item {
 	for _, s := range strs {
 		out = append(out, c13Item{model.QuoteStr(s), "string-grammar", system.String(s), model.CVal{Kind: "String", S: s}})
 	}
+	// FHIR decimal elements written with an exponent (legal FHIR decimals; the same numbers as the plain spellings)
+	for _, e := range [][2]string{{"1.5E2", "150"}, {"1e3", "1000"}, {"2E-2", "0.02"}, {"-4.2e+1", "-42"}, {"1.50e0", "1.50"}, {"25e-1", "2.5"}} {
+		if m, ok := model.ParseLiteral(e[1]); ok {
+			if m.Kind == "Integer" {
+				m, _ = model.ParseLiteral(e[1] + ".0")
+			}
+			m.S = e[1]
+			out = append(out, c13Item{"fhir decimal '" + e[0] + "'", "fhir", &dtpb.Decimal{Value: e[0]}, m})
+		}
+	}
 	// a FHIR string element carrying a convertible rendering, a code, and complex items
 	out = append(out, c13Item{"fhir string '12'", "fhir", &dtpb.String{Value: "12"}, model.CVal{Kind: "String", S: "12"}})
 	out = append(out, c13Item{"fhir code 'true'", "fhir", &dtpb.Code{Value: "true"}, model.CVal{Kind: "String", S: "true"}})
